@@ -28,13 +28,13 @@ def _worker(args):
     rt.ctx.stats.clear()
     rt.ctx.entered = set()
     t = time.time()
-    budget = float(os.environ.get("SX_JOB_BUDGET_S", "0") or 0) or getattr(mod, "JOB_BUDGET_S", 900)
+    budget = float(os.environ.get("SX_JOB_BUDGET_S", "0") or 0) or getattr(mod, "JOB_BUDGET_S", 600)
     rt.ctx.deadline = t + budget
     import faulthandler
 
     # hard stop for a job that neither finishes nor reaches the budget check (deadlock, runaway solver call): the worker
     # process exits, the pool reports it and the job is retried / reported inconclusive
-    faulthandler.dump_traceback_later(budget + 420, exit=True)
+    faulthandler.dump_traceback_later(budget + 200, exit=True)
     import signal
 
     def _alarm(signum, frame):
@@ -147,7 +147,7 @@ def run_check(pid, tier, modname):
 
         pending = list(jobs)
         attempts = 0
-        while pending and attempts < 3:
+        while pending and attempts < 2:
             attempts += 1
             done_jobs = []
             try:
